@@ -51,6 +51,9 @@ pub struct Case {
     /// connections that are all offered at the very instant the (time-placed) signal fires
     #[serde(default)]
     pub backlog: u8,
+    /// the incoming stream ends (listener closed / producer gone) right after the signal, while calls drain
+    #[serde(default)]
+    pub close_listener: bool,
 }
 
 fn call_spec() -> BoxedStrategy<CallSpec> {
@@ -89,10 +92,10 @@ pub fn strategy() -> BoxedStrategy<Case> {
         3 => (any::<u16>(), 0u8..4).prop_map(|(s, j)| Signal::OnSent(s, j)),
         2 => any::<u16>().prop_map(Signal::OnCompleted),
     ];
-    (proptest::collection::vec(conn, 1..=3), signal, any::<bool>(), any::<bool>(), any::<u64>(), prop_oneof![4 => Just(0u8), 1 => Just(30u8)])
-        .prop_map(|(conns, signal, post_conn, post_call, rt_seed, backlog)| {
+    (proptest::collection::vec(conn, 1..=3), signal, any::<bool>(), any::<bool>(), any::<u64>(), prop_oneof![4 => Just(0u8), 1 => Just(30u8)], proptest::bool::weighted(0.3))
+        .prop_map(|(conns, signal, post_conn, post_call, rt_seed, backlog, close_listener)| {
             let backlog = if matches!(signal, Signal::AtMs(_)) { backlog } else { 0 };
-            Case { conns, signal, post_conn, post_call, rt_seed, backlog }
+            Case { conns, signal, post_conn: post_conn && !close_listener, post_call, rt_seed, backlog, close_listener }
         })
         .boxed()
 }
@@ -261,8 +264,13 @@ pub fn run(c: &Case, o: &mut Outcome) -> Result<(), Failure> {
             let fired = fired.clone();
             let ch0 = channels[0].clone();
             let (pc, pk) = (case.post_conn, case.post_call);
+            let closer = case.close_listener;
             tokio::spawn(async move {
                 fired.notified().await;
+                if closer {
+                    // the incoming stream ends while accepted calls are still draining
+                    net.close_listener();
+                }
                 rt::quiesce().await;
                 if pk {
                     let started_ms = rt::virtual_ms().unwrap_or(0);
@@ -327,6 +335,7 @@ pub fn run(c: &Case, o: &mut Outcome) -> Result<(), Failure> {
     o.label_if(log.len() < n_calls, "some_calls_never_entered");
     o.label_if(c.post_conn, "post_signal_connection");
     o.label_if(c.post_call, "post_signal_call_on_old_connection");
+    o.label_if(c.close_listener, "incoming_ends_during_drain");
     o.label_if(matches!(c.signal, Signal::AtMs(_)), "signal_by_time");
     o.label_if(!matches!(c.signal, Signal::AtMs(_)), "signal_by_handler_event");
 
